@@ -389,8 +389,14 @@ def check_outline(unit: tuple, media: Tuple[str, ...], out: Dict[str, Any], add:
 
 def _work(job: tuple) -> Dict[str, Any]:
     case, media, full = job
+    from .. import explore
     try:
-        return check_case(case, media, full)
+        with explore.watchdog(20 * explore.WATCHDOG_S):
+            return check_case(case, media, full)
+    except explore.Hang as hang:
+        return {'n': 1, 'snapshots': 0, 'paused_snapshots': 0,
+                'violations': [{'clause': 'hang', 'features': {'kind': case[0]}, 'detail': str(hang),
+                                'case': {'kind': case[0], 'program': case[1], 'inputs': case[2]}}]}
     except Exception as exc:  # noqa: BLE001
         import traceback
         return {'n': 1, 'snapshots': 0, 'paused_snapshots': 0,
